@@ -62,12 +62,15 @@ func installHook() {
 type Sched struct {
 	e       *Emu
 	threads []*sthread
+	waiter  int // thread whose goroutine is blocked on the table lock, or -1
+	forced  int // thread that must be stepped next (the waiter after a release), or -1
+	ruleOff bool // the implementation did something the waiter rule cannot order (a lock holder blocked)
 }
 
 func NewSched(e *Emu, progs [][]Call) *Sched {
 	installHook()
 	e.concurrent = true
-	s := &Sched{e: e}
+	s := &Sched{e: e, waiter: -1, forced: -1}
 	for _, p := range progs {
 		s.threads = append(s.threads, &sthread{todo: p})
 	}
@@ -185,6 +188,52 @@ func (s *Sched) Step(i int) Outcome {
 	}
 }
 
+
+// StepPref executes the scheduler preference "step thread i" under the waiter rule and reports every
+// step actually executed through rec.  A goroutine that was seen blocked on a lock is not parked: it
+// carries on by itself the moment the lock is released.  To keep executions deterministic (and equal
+// to the model, where a blocked step changes nothing and the thread retries at its next step), while
+// such a waiter exists only lock holders (and the waiter itself) are stepped, and right after a
+// holder has released its lock the waiter is stepped before anything else.
+func (s *Sched) StepPref(i int, rec func(int, Outcome)) {
+	if s.forced >= 0 {
+		w := s.forced
+		s.forced = -1
+		rec(w, s.stepTracked(w))
+	}
+	if i >= len(s.threads) {
+		rec(i, Outcome{Kind: "idle"})
+		return
+	}
+	if !s.ruleOff && s.waiter >= 0 && i != s.waiter && !s.holds(i) {
+		return // skipped: would run concurrently with (or queue up behind) the waiter
+	}
+	rec(i, s.stepTracked(i))
+}
+
+func (s *Sched) stepTracked(i int) Outcome {
+	was := s.holds(i)
+	o := s.Step(i)
+	if o.Kind == "blocked" && was {
+		// a thread parked inside its locked section cannot block in the model: from here on the
+		// schedule is followed as it stands and the model comparison reports the difference
+		s.ruleOff, s.waiter, s.forced = true, -1, -1
+		return o
+	}
+	if o.Kind == "blocked" {
+		s.waiter = i
+	} else if i == s.waiter {
+		s.waiter = -1
+	}
+	if was && !s.holds(i) && s.waiter >= 0 && s.waiter != i {
+		s.forced = s.waiter
+	}
+	return o
+}
+
+// holds: thread i is parked inside its write section (holding the table lock)
+func (s *Sched) holds(i int) bool { return i < len(s.threads) && s.threads[i].parked == "w.mid" }
+
 // gstate returns the runtime's wait state of a goroutine ("running", "sync.RWMutex.Lock", "chan send", ...).
 func gstate(gid int64) string {
 	buf := make([]byte, 1<<16)
@@ -230,7 +279,7 @@ func (s *Sched) Drain() {
 		for i, t := range s.threads {
 			if t.running || t.parked != "" || len(t.todo) > 0 {
 				busy = true
-				s.Step(i)
+				s.StepPref(i, func(int, Outcome) {})
 			}
 		}
 		if !busy {
